@@ -91,6 +91,8 @@ EXAMPLES = {
                                     "wc_gradient_descent_lyapunov_1", _plain),
     "gradient_descent_lyapunov_2": ("potential_functions.gradient_descent_lyapunov_2",
                                     "wc_gradient_descent_lyapunov_2", _plain),
+    "potential_accelerated_gradient_method": ("potential_functions.accelerated_gradient_method",
+                                              "wc_accelerated_gradient_method", _plain),
     "polyak_steps_in_distance_to_optimum": ("adaptive_methods.polyak_steps_in_distance_to_optimum",
                                             "wc_polyak_steps_in_distance_to_optimum", _plain),
     "polyak_steps_in_function_value": ("adaptive_methods.polyak_steps_in_function_value",
@@ -109,6 +111,21 @@ def _jparam(f, name):
     if math.isinf(v) or math.isnan(v):
         return NONE
     return proj.jrat(v, exact=False)
+
+
+def _jpt(p, NP):
+    j = proj.jpt(p, NP, exact=False)
+    j["s"] = [i + 1 for i, n in enumerate(j["n"]) if n != 0]      # support (checked by Runs!ProgOK)
+    return j
+
+
+def _gsupp(j, NP):
+    prs = proj.pairs(NP)
+    out = set()
+    for k, n in enumerate(j["Gn"]):
+        if n != 0:
+            out.update((prs[k][0] + 1, prs[k][1] + 1))
+    return out
 
 
 def kwstr(p):
@@ -161,7 +178,7 @@ def run(item):
     modname, fname, adapter = EXAMPLES[ex]
     p = {k: Fraction(v[0], v[1]) for k, v in item["p"].items()}
     tr = dict(ex=ex, kws=kwstr(p), p=item["p"], status="ok", why="", np=0, ne=0, funcs=[], samples=[], init=[],
-              metrics=[], tau=0, theo=0, hastheo=0)
+              metrics=[], tau=0, theo=0, hastheo=0, used=[])
     try:
         kwargs = adapter(p)
     except Exception as e:
@@ -206,8 +223,7 @@ def run(item):
                                     reuse=1 if f.reuse_gradient else 0))
         for i, f in enumerate(leaves):
             for (x, g, v) in f.list_of_points:
-                tr["samples"].append(dict(fn=i + 1, x=proj.jpt(x, NP, exact=False), g=proj.jpt(g, NP, exact=False),
-                                          f=proj.jex(v, NP, NE, exact=False)))
+                tr["samples"].append(dict(fn=i + 1, x=_jpt(x, NP), g=_jpt(g, NP), f=proj.jex(v, NP, NE, exact=False)))
         for c in pep.list_of_constraints:
             tr["init"].append(dict(e=proj.jex(c.expression, NP, NE, exact=False), sense=proj.sense(c)))
         for m in pep.list_of_performance_metrics:
@@ -215,4 +231,12 @@ def run(item):
     except proj.Inexact as e:
         tr.update(status="irrational", why=str(e)[:80], funcs=[], samples=[], init=[], metrics=[])
         return tr
+    used = set()
+    for s in tr["samples"]:
+        used.update(s["x"]["s"]); used.update(s["g"]["s"])
+    for c in tr["init"]:
+        used |= _gsupp(c["e"], NP)
+    for m in tr["metrics"]:
+        used |= _gsupp(m, NP)
+    tr["used"] = sorted(used)
     return tr
